@@ -80,6 +80,15 @@ func (win Window) SetCell(col int, row int, cell Cell) {
 	if row < 0 || col < 0 {
 		return
 	}
+	// A cell which is wider than the room left in the window would be
+	// drawn partly outside of it
+	w := cell.Width
+	if w == 0 && cell.Grapheme != "" && win.Vx != nil {
+		w = win.Vx.characterWidth(cell.Grapheme)
+	}
+	if col+w > win.Width {
+		return
+	}
 	switch win.Parent {
 	case nil:
 		win.Vx.screenNext.setCell(col+win.Column, row+win.Row, cell)
